@@ -1,0 +1,11 @@
+//go:build !verif
+
+package sample
+
+import (
+	"io"
+
+	"github.com/cronokirby/saferith"
+)
+
+func verifPrimes(io.Reader) (p, q *saferith.Nat) { return nil, nil }
